@@ -67,8 +67,9 @@ def build_plan(seq, final, rng):
             else:
                 plan.append(dict(outcome="ok", script=script, pong=None))
     i = len(seq)
-    if final == "server-close":
-        plan.append(dict(outcome="ok", script=[(0.3, "frames", text(f"c{i}final")), (0.8, "close", b"\x03\xe8done")], pong=0.05))
+    if final in ("server-close", "server-close-bad-reason"):
+        body = b"\x03\xe8done" if final == "server-close" else b"\x03\xe8bad \xff\xfe"
+        plan.append(dict(outcome="ok", script=[(0.3, "frames", text(f"c{i}final")), (0.8, "close", body)], pong=0.05))
         msgs_expected.append((i, f"c{i}final"))
     else:
         plan.append(dict(outcome="ok", script=[(0.3, "frames", text(f"c{i}final")), (0.6, "frames", text("CLOSE-NOW")), (5.0, "frames", text("too late"))], pong=0.05))
@@ -99,6 +100,10 @@ def run(res, tier, seed, shard, nshards):
             for final in ("server-close", "own-close"):
                 for disp in (None, "rel"):
                     jobs.append(("seq", seq, final, 1, disp))
+    # a server close frame with an undecodable reason (validation off) is still a close frame: no reconnect
+    for disp in (None, "rel"):
+        for seq in ((), ("eof",), ("refused", "reset")):
+            jobs.append(("seq", seq, "server-close-bad-reason", 1, disp))
     # close() during the reconnect sleep, swept over the wake-up time
     for interval in (1, 3):
         for disp in (None, "rel"):
@@ -163,6 +168,8 @@ def seq_case(res, W, rng, seq, final, interval, disp, ji=0):
     if final == "own-close":
         hooks["on_message"] = lambda run, app, m: app.close() if m == "CLOSE-NOW" else None
     run_kwargs = dict(reconnect=interval)
+    if final == "server-close-bad-reason":
+        run_kwargs["skip_utf8_validation"] = True
     if "pingtimeout" in seq:
         run_kwargs.update(ping_interval=2, ping_timeout=1)
     elif ji % 3 == 0:
@@ -239,6 +246,8 @@ def seq_case(res, W, rng, seq, final, interval, disp, ji=0):
         bad("on_close-before-final-ending", f"on_close calls at {[c[0] for c in closes]}; last callback {names[-1][1] if names else None}", count=len(closes))
     else:
         exp_args = (1000, "done") if final == "server-close" else None
+        if final == "server-close-bad-reason" and (len(closes[0][2]) != 2 or closes[0][2][0] != 1000):
+            bad("on_close-args", f"on_close{tuple(closes[0][2])!r}, expected code 1000")
         if exp_args and tuple(closes[0][2]) != exp_args:
             bad("on_close-args", f"on_close{tuple(closes[0][2])!r}, expected {exp_args!r}")
     # open/reconnect callbacks: one per established connection, first for it
@@ -252,6 +261,9 @@ def seq_case(res, W, rng, seq, final, interval, disp, ji=0):
         bad("open-callbacks", f"open/reconnect callbacks {[n for _, n, _ in opens]}, expected {exp_opens}")
     # messages flow again: every message the servers delivered reached on_message exactly once, in order
     got = [a[0] for (t, n, a, ci) in names if n == "on_message"]
+    if run_kwargs.get("skip_utf8_validation"):
+        # with validation off the application is handed the raw bytes of text messages (not part of this property)
+        got = [g.decode("utf-8") if isinstance(g, bytes) else g for g in got]
     want = [s for (i, s) in msgs_expected]
     if got != want:
         bad("messages-after-reconnect", f"on_message got {got}, expected {want}")
